@@ -45,7 +45,10 @@ META = {
         "{1,2,3,5,10,30,100,1000}. Each of backend=python/rust/default/auto is validated against the reference and the "
         "four meanings (status; distances / visited list / total weight / component partition and count / "
         "feasibility; objective where it carries meaning) must be equal; paths, trees and orders are validated, not "
-        "compared verbatim; PageRank ||p-r||_1 <= 2*n*tol*d/(1-d)+1e-12. A case is non-trivial when the edge list has a "
+        "compared verbatim; round-3 families: hairline cycles (total -k*2^-40, 0 or +k*2^-40 on ordinary weights) for bellman_ford / "
+        "directed floyd_warshall, large sparse graphs (33..80 nodes, thorough ..140: long paths / deep trees + noise) for every function, "
+        "braids (2-3 routes of different length merging before the target) and bundles (1..6 parallel edges per tree edge in decreasing "
+        "weight order) for the single-source functions; every call runs under a deterministic step budget; PageRank ||p-r||_1 <= 2*n*tol*d/(1-d)+1e-12. A case is non-trivial when the edge list has a "
         "repeated or an anti-parallel ordered pair, or a negative cycle, or the target is unreachable. Distinct = "
         "canonical JSON of the description."
     ),
@@ -72,16 +75,18 @@ WHERE = {  # function -> (module, extension entry point the adapter must reach)
     "topological_sort_edges": ("solvor.scc", "topological_sort"),
 }
 INF = float("inf")
-# JUMP|BRANCH events allowed per call (vf/budget.py).  >= 100 x the largest count seen on /repo over the quick and the thorough
-# tier (evidence: sizes "steps-<fn>"), rounded up; small enough that a runaway list-building loop stops below ~20 MB.
+# JUMP|BRANCH events allowed per call (vf/budget.py).  >= 100 x the largest count seen on /repo (thorough tier, n <= 140:
+# bellman_ford 69 843, pagerank_edges 47 427, topological sort 3 268, scc 2 008, dijkstra 1 984, bfs/dfs 1 811, kruskal 576,
+# floyd_warshall 320 = adapter only; evidence sizes "steps-<fn>"), and small enough that a runaway list-building loop
+# (the adapter's predecessor walk) is stopped below ~100 MB.
 STEP_LIMIT = {
     "floyd_warshall": 1_000_000,
-    "bellman_ford": 3_000_000,
+    "bellman_ford": 8_000_000,
     "dijkstra_edges": 3_000_000,
     "bfs_edges": 3_000_000,
     "dfs_edges": 3_000_000,
     "kruskal": 3_000_000,
-    "pagerank_edges": 100_000_000,
+    "pagerank_edges": 20_000_000,
     "strongly_connected_components_edges": 3_000_000,
     "topological_sort_edges": 3_000_000,
 }
